@@ -60,7 +60,7 @@ def to_term(v):
     if isinstance(v, float):
         return {'k': 'floatS', 'n': num_id(float(v)), 'r': repr(float(v))}
     if isinstance(v, str):
-        return {'k': 'strS', 's': str(v)}
+        return {'k': 'strS', 's': str.__str__(v)}
     if isinstance(v, list):
         return {'k': 'listS', 'xs': [to_term(x) for x in v]}
     if isinstance(v, tuple):
@@ -118,7 +118,10 @@ class FloatS(float):
 
 
 class StrS(str):
-    pass
+    # like the members of 'class Color(str, enum.Enum)': a str()/repr() of its own, which json ignores (D36)
+    def __repr__(self):
+        return '<StrS %s>' % str.__repr__(self)
+    __str__ = __repr__
 
 
 class ListS(list):
